@@ -234,8 +234,25 @@ func (e *executor) processInput(workflow *Workflow) (schema.Scope, error) {
 	if !ok {
 		return nil, fmt.Errorf("bug: unserialized input is not a scope")
 	}
-	typedInput.ApplySelf()
+	if err := linkInputScope(typedInput); err != nil {
+		return nil, &ErrInvalidWorkflow{fmt.Errorf("invalid workflow input section (%w)", err)}
+	}
 	return typedInput, nil
+}
+
+// linkInputScope links the references inside the workflow's input scope to the objects of that scope, and makes sure
+// that the scope has the root object it names. The SDK reports a reference to an object that does not exist, and a
+// missing or mislabeled root object, by panicking, since those are programming errors in a schema that is written in
+// Go. The input scope is read from the workflow file, so here they are errors in that file.
+func linkInputScope(inputScope schema.Scope) (err error) {
+	defer func() {
+		if r := recover(); r != nil {
+			err = fmt.Errorf("%v", r)
+		}
+	}()
+	inputScope.ApplySelf()
+	inputScope.RootObject()
+	return nil
 }
 
 func (e *executor) processSteps(
@@ -342,7 +359,14 @@ func BuildNamespaces(stepLifecycles map[string]step.Lifecycle[step.LifecycleStag
 func applyLifecycleNamespaces(
 	stepLifecycles map[string]step.Lifecycle[step.LifecycleStageWithSchema],
 	typedInput schema.Scope,
-) error {
+) (err error) {
+	// The input scope comes from the workflow file. The SDK panics when one of its references names an object
+	// that the referenced namespace does not have; for a workflow file that is an error, not a bug.
+	defer func() {
+		if r := recover(); r != nil {
+			err = fmt.Errorf("error applying the namespaces of the steps to the workflow input (%v)", r)
+		}
+	}()
 	return applyAllNamespaces(BuildNamespaces(stepLifecycles), typedInput)
 }
 
